@@ -83,6 +83,10 @@ def check(k, seed):
     digits = ['12', '2', '1', '21', '121', '0', '00', '5']
     if len(names) <= len(digits):
         maps.append(('digit strings that extend each other', dict(zip(names, digits[:len(names)]))))
+    # the empty string is a legal name too (falsy: truth tests on names are not label uses); give it to an excluded ceilometer
+    tgt = (prms.get('EXCLUDE_FOR_BASE_HEIGHT_CALC') or names)[0]
+    if '' not in names:
+        maps.append(('empty name', {n: ('' if n == tgt else n) for n in names}))
     for item in maps:
         if item is None:
             continue
